@@ -662,8 +662,10 @@ _transitions = {
     (StreamState.HALF_CLOSED_REMOTE, StreamInputs.SEND_PUSH_PROMISE):
         (H2StreamStateMachine.send_push_promise,
             StreamState.HALF_CLOSED_REMOTE),
-    (StreamState.HALF_CLOSED_REMOTE, StreamInputs.RECV_PUSH_PROMISE):
-        (H2StreamStateMachine.reset_stream_on_error, StreamState.CLOSED),
+    # A PUSH_PROMISE after the remote peer ended the stream is not in this
+    # table: RFC 7540 Section 6.6 makes PUSH_PROMISE on a stream that is
+    # neither "open" nor "half-closed (local)" a connection error of type
+    # PROTOCOL_ERROR.
     (StreamState.HALF_CLOSED_REMOTE, StreamInputs.SEND_INFORMATIONAL_HEADERS):
         (H2StreamStateMachine.send_informational_response,
             StreamState.HALF_CLOSED_REMOTE),
